@@ -1,5 +1,7 @@
 /- Driver commands `js.*` (C14). -/
 import PasskeyVerif.Model.WebauthnJson
+import PasskeyVerif.Model.SerdeStruct
+import PasskeyVerif.Generated.WebauthnSchema
 import PasskeyVerif.Driver.AuthText
 namespace PasskeyVerif.Driver.WebJson
 open PasskeyVerif PasskeyVerif.Json PasskeyVerif.WJson PasskeyVerif.Driver.AuthText
@@ -40,6 +42,21 @@ partial def numbersValid : Json → Bool
 
 def parseStrict (t : String) : Option Json := (Json.parse t).filter numbersValid
 
+/-- canonical rendering of a parsed value (the harness renders the Rust value the same way: c14.rs `canon`) -/
+def hx0 (b : List UInt8) : String := if b.isEmpty then "" else hx b
+
+partial def showVal : Serde.Val → String
+  | .bytes b => "h" ++ hx0 b
+  | .str s => "s" ++ hx0 s.toUTF8.toList
+  | .bool b => if b then "t" else "f"
+  | .int i => toString i
+  | .none => "N"
+  | .some v => "S(" ++ showVal v ++ ")"
+  | .list l => "[" ++ ",".intercalate (l.map showVal) ++ "]"
+  | .record _ fs => "{" ++ ";".intercalate (fs.map (fun kv => kv.1 ++ "=" ++ showVal kv.2)) ++ "}"
+  | .enumv s => "e:" ++ s
+  | .map l => "m{" ++ ";".intercalate (l.map (fun kv => hx0 kv.1.toUTF8.toList ++ "=" ++ showVal kv.2)) ++ "}"
+
 def keysOf (j : Json) : List String := match j with | .obj l => l.map (·.1) | _ => []
 
 def step (st : St) (op : List String) (impl : String) : St × String :=
@@ -77,6 +94,16 @@ def step (st : St) (op : List String) (impl : String) : St × String :=
     else match st.first with
       | none => ({ first := some impl }, impl ++ "\tok")
       | some f => (st, impl ++ "\t" ++ (if f = impl then "ok" else "fail:presentations-of-one-value-parse-to-different-values"))
+  | ["js.opts", root, doc] =>
+    -- the regenerated schema interpreted by the serde model against the real derived parser
+    match textOfHex doc with
+    | none => (st, "bad-op\tna")
+    | some t =>
+      if (parseStrict t).isNone && (Json.parse t).isSome then (st, impl ++ "\tna") else
+      match Serde.parseRoot Generated.Webauthn.schema (fun v => knownAlgs.contains v) root t with
+      | .ok v => (st, "ok:" ++ showVal v ++ "\t" ++ (if impl = "panic" then "fail:panic" else "ok"))
+      | .err => (st, "err\t" ++ (if impl = "panic" then "fail:panic" else "ok"))
+      | .unmodelled => (st, impl ++ "\t" ++ (if impl = "panic" then "fail:panic" else "na"))
   | ["js.emit", _kind, _doc] =>
     (st, impl ++ "\t" ++ (if impl = "same" then "ok" else "fail:emitted-credential-does-not-re-parse-to-an-equal-value"))
   | ["js.b64", h] =>
